@@ -5,7 +5,17 @@
 //        prints:  n  dep[n*n]  hb[n*n]  (k e_1..e_k){n}
 //        dep[a][b] (a<b) = T_a->dispatch_depends(T_b)  exactly what push_transition evaluates; hb = happens_before(a,b);
 //        then get_racing_events_of(t) for each t.
-//   mode unfold (C44): see below.
+//   mode unfold (C44): one case per line:
+//        n (kind aid f1..f5 nc c_1..c_nc){n}  m S_1..S_m  kmax ksub  nv size_1..size_nv
+//        builds n UnfoldingEvents (event i has the given real transition and immediate causes c_j < i), takes the
+//        EventSet S and prints
+//          dep[n*n] conflicts_with[n*n]  |closure| closure  |maximal| maximal  |seq| History-iteration-sequence
+//          is_valid_configuration is_conflict_free is_maximal Configuration-ctor-accepts
+//          |topo| topological-ordering(S) (or -1 when it throws)
+//          #sets (size ids){#}      maximal_subsets_iterator(S, nullopt, kmax<0 ? nullopt : kmax)
+//          #sets (positions){#}     subsets_iterator(ksub) over the vector of S (sorted by id)
+//          #sets (size positions)*  powerset_iterator over the same vector (only when m <= 10, else -1)
+//          #tuples (positions)*     variable_for_loop over nv vectors of the given sizes
 //
 // transition kinds (the integer codes are private to this driver and checks/C4x.py):
 //   0 RANDOM(min,max) 1 ACTOR_JOIN(target,timeout) 2 ACTOR_SLEEP 3 ACTOR_CREATE(child) 4 ACTOR_EXIT
@@ -198,11 +208,161 @@ static void mode_exec()
   }
 }
 
+// ------------------------------------------------------------------------------------------------------ C44
+static void put_ids(std::string& out, std::vector<LL> ids, bool sorted = true)
+{
+  if (sorted)
+    std::sort(ids.begin(), ids.end());
+  out += " " + std::to_string(ids.size());
+  for (auto i : ids)
+    out += " " + std::to_string(i);
+}
+
+static void mode_unfold()
+{
+  using namespace simgrid::mc::udpor;
+  std::vector<LL> v;
+  while (drv::next_case(v)) {
+    size_t i = 0;
+    size_t n = (size_t)v.at(i++);
+    std::vector<std::unique_ptr<UnfoldingEvent>> ev;
+    std::map<const UnfoldingEvent*, LL> idx;
+    for (size_t e = 0; e < n; e++) {
+      TransitionPtr t = make_transition(v.at(i), v.at(i + 1), &v.at(i + 2));
+      i += 7;
+      size_t nc = (size_t)v.at(i++);
+      EventSet causes;
+      for (size_t c = 0; c < nc; c++)
+        causes.insert(ev.at((size_t)v.at(i++)).get());
+      ev.push_back(std::make_unique<UnfoldingEvent>(causes, t));
+      idx[ev.back().get()] = (LL)e;
+    }
+    size_t m = (size_t)v.at(i++);
+    EventSet S;
+    std::vector<const UnfoldingEvent*> Svec;
+    for (size_t k = 0; k < m; k++) {
+      const UnfoldingEvent* e = ev.at((size_t)v.at(i++)).get();
+      S.insert(e);
+      Svec.push_back(e);
+    }
+    std::sort(Svec.begin(), Svec.end(), [&](auto a, auto b) { return idx[a] < idx[b]; });
+    LL kmax    = v.at(i++);
+    size_t ksub = (size_t)v.at(i++);
+    size_t nv   = (size_t)v.at(i++);
+    std::vector<std::vector<int>> colls;
+    for (size_t k = 0; k < nv; k++)
+      colls.emplace_back((size_t)v.at(i++), 0);
+
+    auto ids_of = [&](const EventSet& s) {
+      std::vector<LL> r;
+      for (const auto* e : s)
+        r.push_back(idx.at(e));
+      return r;
+    };
+    std::string out;
+    for (size_t a = 0; a < n; a++)
+      for (size_t b = 0; b < n; b++)
+        out += ev[a]->is_dependent_with(ev[b].get()) ? " 1" : " 0";
+    for (size_t a = 0; a < n; a++)
+      for (size_t b = 0; b < n; b++)
+        out += ev[a]->conflicts_with(ev[b].get()) ? " 1" : " 0";
+    const History hist(S);
+    put_ids(out, ids_of(hist.get_all_events()));
+    put_ids(out, ids_of(S.get_largest_maximal_subset()));
+    {
+      std::vector<LL> seq;
+      for (auto it = hist.begin(); it != hist.end(); ++it)
+        seq.push_back(idx.at(*it));
+      put_ids(out, seq, false);
+    }
+    out += S.is_valid_configuration() ? " 1" : " 0";
+    out += S.is_conflict_free() ? " 1" : " 0";
+    out += S.is_maximal() ? " 1" : " 0";
+    try {
+      Configuration C(S);
+      out += " 1";
+    } catch (const std::invalid_argument&) {
+      out += " 0";
+    }
+    try {
+      std::vector<LL> topo;
+      for (const auto* e : S.get_topological_ordering())
+        topo.push_back(idx.at(e));
+      put_ids(out, topo, false);
+    } catch (const std::invalid_argument&) {
+      out += " -1";
+    }
+    {
+      std::string sets;
+      size_t count = 0;
+      maximal_subsets_iterator it(S, std::nullopt,
+                                  kmax < 0 ? std::nullopt : std::optional<size_t>{(size_t)kmax});
+      const maximal_subsets_iterator end;
+      for (; it != end; ++it) {
+        put_ids(sets, ids_of(*it));
+        if (++count > 200000)
+          break;
+      }
+      out += " " + std::to_string(count) + sets;
+    }
+    {
+      using It = std::vector<const UnfoldingEvent*>::const_iterator;
+      std::string sets;
+      size_t count = 0;
+      simgrid::xbt::subsets_iterator<It> it(ksub, Svec.cbegin(), Svec.cend());
+      const simgrid::xbt::subsets_iterator<It> end(ksub);
+      for (; it != end; ++it) {
+        for (const auto& p : *it)
+          sets += " " + std::to_string(p - Svec.cbegin());
+        if (++count > 200000)
+          break;
+      }
+      out += " " + std::to_string(count) + sets;
+      if (m <= 10) {
+        sets.clear();
+        count = 0;
+        simgrid::xbt::powerset_iterator<It> pit(Svec.cbegin(), Svec.cend());
+        const simgrid::xbt::powerset_iterator<It> pend;
+        for (; pit != pend; ++pit) {
+          sets += " " + std::to_string((*pit).size());
+          for (const auto& p : *pit)
+            sets += " " + std::to_string(p - Svec.cbegin());
+          if (++count > 200000)
+            break;
+        }
+        out += " " + std::to_string(count) + sets;
+      } else
+        out += " -1";
+    }
+    {
+      using Coll = const std::vector<int>;
+      std::vector<std::reference_wrapper<Coll>> refs;
+      for (auto const& c : colls)
+        refs.emplace_back(c);
+      std::string sets;
+      size_t count = 0;
+      simgrid::xbt::variable_for_loop<Coll> it(refs);
+      const simgrid::xbt::variable_for_loop<Coll> end;
+      for (; it != end; ++it) {
+        for (size_t k = 0; k < (*it).size(); k++)
+          sets += " " + std::to_string((*it)[k] - colls[k].cbegin());
+        if (++count > 200000)
+          break;
+      }
+      out += " " + std::to_string(count) + sets;
+    }
+    puts(out.c_str() + 1);
+    fflush(stdout);
+  }
+}
+
 int main(int argc, char** argv)
 {
   std::string mode = argc > 1 ? argv[1] : "exec";
   if (mode == "exec")
     mode_exec();
+  else if (mode == "unfold")
+    mode_unfold();
   else {
     fprintf(stderr, "unknown mode %s\n", mode.c_str());
     return 3;
